@@ -5,8 +5,11 @@ package tiered
 import "sync/atomic"
 
 // Scheduling points for the verification harness (build tag verif). All points
-// are at places where the flusher holds no lock, so a worker parked at one of
-// them cannot block client operations.
+// in the flusher are at places where it holds no lock, so a worker parked at one
+// of them cannot block client operations. The one client-side point
+// (store.beforeMarkMetadataDirty, between a metadata update in memory and the
+// flusher being told about it) is reached with the store mutex held: other client
+// operations wait, the flusher does not.
 
 var verifYieldFn atomic.Value // func(point, key string)
 
